@@ -37,3 +37,10 @@ package partitions
 //@   ensures  #nonnil: result != nil
 //@   ensures  #exact: result == ps.m[hkey % ps.count]
 //@   modifies nothing
+
+// The owners list is published through an atomic.Value; only its being a list is assumed.
+//@ func (ps *Partitions) PartitionOwnersByHKey(hkey uint64) []discovery.Member
+//@   props C05
+//@   trusted
+//@   requires #inv: ps.inv() && ps.count > 0
+//@   modifies nothing
